@@ -33,6 +33,8 @@ QUICK_CANARIES = 2
 def build(pc, E, canary=None):
     pc.E = E
     pc.add_functions(E, TARGETS)
+    import contracts.route as R
+    R.dispatch_support(pc, E)
 
 
 def search(pc, it):
